@@ -105,15 +105,19 @@ pub struct World {
     pub op_inter: u32,
     pub irq_waits: u32,
     pub resets: u32,
+    /// a terminal outcome (done / timeout / error set) the chip accepted and latched during the
+    /// current API call
+    pub terminal_in_op: Option<String>,
 }
 
 pub type Shared = Rc<RefCell<World>>;
 
 impl World {
     pub fn new(chip: Chip) -> Shared {
-        Rc::new(RefCell::new(World { chip, inter: 0, fault_at: None, fault_hit: None, fault_info: None, fault_sel_hit: None, fault_sel: None, step: -1, occ: Default::default(), script: VecDeque::new(), rx_payload: vec![], blocked: false, cur_op: "new".into(), op_inter: 0, irq_waits: 0, resets: 0 }))
+        Rc::new(RefCell::new(World { chip, inter: 0, fault_at: None, fault_hit: None, fault_info: None, fault_sel_hit: None, fault_sel: None, step: -1, occ: Default::default(), script: VecDeque::new(), rx_payload: vec![], blocked: false, cur_op: "new".into(), op_inter: 0, irq_waits: 0, resets: 0, terminal_in_op: None }))
     }
     pub fn begin_step(&mut self, step: i32) {
+        self.terminal_in_op = None;
         self.step = step;
         self.occ.clear();
     }
@@ -255,13 +259,13 @@ impl InterfaceVariant for WIv {
             match w.script.pop_front() {
                 Some(ev) => {
                     let payload = w.rx_payload.clone();
-                    match &mut w.chip {
-                        Chip::C126(c) => {
-                            c.event(&ev, &payload);
-                        }
-                        Chip::C127(c) => {
-                            c.event(&ev, &payload);
-                        }
+                    let accepted = match &mut w.chip {
+                        Chip::C126(c) => c.event(&ev, &payload),
+                        Chip::C127(c) => c.event(&ev, &payload),
+                    };
+                    let terminal = ev.contains("done") || ev.contains("timeout") || ev == "crc-error";
+                    if accepted && terminal && w.chip.irq_line() {
+                        w.terminal_in_op = Some(ev.clone());
                     }
                     // the line fires (for "spurious" without any flag behind it)
                     Poll::Ready(Ok(()))
